@@ -31,10 +31,10 @@ import PV.Proofs.CoeffComplete
     * `solve_sound_partial`     the values read off satisfy every row — only when the reduced
                                 matrix has the single-entry shape: `solve_sound_underdetermined_cex`,
                                 `solve_sound_inconsistent_cex`
-    * `solve_affine_sound_partial` the same for the expressions `solveAffine` returns, evaluated
-                                through `den` in any exact parameter environment
-    * `assemble_overwrites_cex` the matrix assembled from the equations is wrong when a term
-                                occurs on both sides of one equation
+    * `solve_affine_sound_partial` under the same shape hypothesis the ORIGINAL equations hold
+                                when the unknowns are bound to the returned expressions' values
+    * `assemble_row_value`      the integer row assembled for an equation represents lhs - rhs
+                                (also for terms that occur on both sides)                  (holds)
 -/
 namespace PV.C15
 open PV PV.Coeff
@@ -312,19 +312,19 @@ theorem assemble_value (env : Env) (params : List Expr) (row : Row) (t : Expr) (
 example : assembleVal [.var "p", .var "q"] [2, 0, 1] = .ok (.nary .sum [.const (.int 1),
     .nary .prod [.const (.int 2), .var "p"]]) := rfl
 
-/-- **The solver on expressions (partial).**  If `solve_affine_equations_for` returns `sol` for
-the unknowns `names` and the equations `eqs` (`params`: the parameters in the order in which the
-Python set is iterated), then the equations were assembled into an integer matrix `mat`, every
-returned expression evaluates — in any environment `env` in which the parameters are exact
-numbers `qs` — to an exact number `xs[j]`, and, when the reduced matrix has the single-entry shape
-`reducedOK`, these values satisfy every row of `mat`:  `Σ_j a_j · xs[j] = Σ_c b_c · qs[c] + b_last`.
-(Whether `mat` is the right matrix for `eqs` is the subject of `assemble_overwrites_cex`.) -/
-theorem solve_affine_sound_partial (env : Env) (names : List String) (eqs : List (Expr × Expr))
+/-- **The solver on expressions, matrix level (partial).**  If `solve_affine_equations_for`
+returns `sol` for the unknowns `names` and the equations `eqs` (`params`: the parameters in the
+order in which the Python set is iterated), then the equations were assembled into an integer
+matrix `mat`, every returned expression evaluates — in any environment `env` in which the
+parameters are exact numbers `qs` — to an exact number `xs[j]`, and, when the reduced matrix has
+the single-entry shape `reducedOK`, these values satisfy every row of `mat`:
+`Σ_j a_j · xs[j] = Σ_c b_c · qs[c] + b_last`. -/
+theorem solve_affine_rows_sound_partial (env : Env) (names : List String) (eqs : List (Expr × Expr))
     (params : List Expr) (sol : List (Expr × Expr)) (qs : List Rat)
     (h : solveAffine names eqs params = .ok sol) (hq : nvL env params = some qs) :
     ∃ (mat : List ARow) (vals : List Expr) (xs : List Rat),
       eqs.mapM (assembleRow (names.map Expr.var) params) = .ok mat ∧
-      sol = (names.map Expr.var).zip vals ∧
+      sol = (names.map Expr.var).zip vals ∧ vals.length = (names.map Expr.var).length ∧
       List.Forall₂ (fun v x => nv env v = some x) vals xs ∧
       (reducedOK (gaussElim eqs.length (names.map Expr.var).length mat) = true →
         ∀ r ∈ mat, dot (fun j => xs.getD j 0) r.1 = dot (pOf qs) r.2) := by
@@ -343,7 +343,13 @@ theorem solve_affine_sound_partial (env : Env) (names : List String) (eqs : List
     obtain ⟨j, _, hj⟩ := mapM_mem _ rows hsm row hrow
     obtain ⟨r, hr, hl⟩ := solveCol_length hj
     rw [hl]; exact (hrect' r hr).2
-  refine ⟨mat, vals, rows.map (dot (pOf qs)), hm, hsol, vals_values hq rows vals hf2 hlen, ?_⟩
+  have hrl : rows.length = (names.map Expr.var).length := by
+    have hsm' := hsm
+    unfold solveMat at hsm'
+    rw [List.range_eq_range'] at hsm'
+    exact (mapM_range'_ok _ _ 0 rows hsm').1
+  refine ⟨mat, vals, rows.map (dot (pOf qs)), hm, hsol, by rw [← forall2_length hf2, hrl],
+    vals_values hq rows vals hf2 hlen, ?_⟩
   intro hred r hr
   have := solve_sound_partial eqs.length (names.map Expr.var).length (qs.length + 1) mat rows hrect
     hsm hred (pOf qs) r hr
@@ -351,6 +357,91 @@ theorem solve_affine_sound_partial (env : Env) (names : List String) (eqs : List
   have hfun : (fun j => (rows.map (dot (pOf qs))).getD j 0) = fun j => dot (pOf qs) (rows.getD j []) := by
     funext j; exact getD_map_dot _ rows j
   rw [hfun]
+  linarith
+
+/-- **The assembled row represents `lhs - rhs`.**  In an environment in which unknown `j` has the
+exact value `x j` and parameter `c` the exact value `p c` (and `p (number of parameters) = 1` for
+the constant column), the residual `a·x - b·p` of the integer row `(a | b)` assembled for the
+equation `lhs = rhs` is `value(lhs) - value(rhs)`: the contributions of both sides accumulate
+(`mat[i, j] += …`), also when a term occurs on both sides. -/
+theorem assemble_row_value (env : Env) (unknowns params : List Expr) (eq : Expr × Expr) (row : ARow)
+    (x p : ℕ → ℚ) (ql qr : Rat)
+    (hx : ∀ j u, unknowns[j]? = some u → nv env u = some (x j))
+    (hp : ∀ c u, params[c]? = some u → nv env u = some (p c))
+    (hp1 : p params.length = 1)
+    (hus : ∀ u ∈ unknowns, u.simple = true) (hps : ∀ u ∈ params, u.simple = true)
+    (h : assembleRow unknowns params eq = .ok row)
+    (hs1 : eq.1.simple = true) (hs2 : eq.2.simple = true)
+    (hr1 : recipOK env none eq.1 = true) (hr2 : recipOK env none eq.2 = true)
+    (hl : nv env eq.1 = some ql) (hr : nv env eq.2 = some qr) :
+    dot x row.1 - dot p row.2 = ql - qr :=
+  assembleRow_value x p hx hp hp1 hus hps h hs1 hs2 hr1 hr2 hl hr
+
+/-- two-sided terms accumulate: `x + 1 = 0` gives the row `(1 | -1)`, `2x = x + 3` gives `(1 | 3)` -/
+example : assembleRow [.var "x"] [] (.nary .sum [.var "x", .const (.int 1)], .const (.int 0))
+    = .ok ([1], [-1]) := rfl
+example : assembleRow [.var "x"] [] (.nary .prod [.const (.int 2), .var "x"],
+    .nary .sum [.var "x", .const (.int 3)]) = .ok ([1], [3]) := rfl
+
+/-- **The solver on the original equations (partial).**  Let `solve_affine_equations_for` return
+`sol` for the unknowns `names`, the equations `eqs` and the parameter order `params`, and let the
+reduced matrix have the single-entry shape `reducedOK` (this excludes the two known-bad shapes:
+underdetermined and inconsistent systems).  Take any environment `env` in which the parameters are
+exact numbers `qs`, and any environment `env'` that gives the parameters the same values and binds
+every unknown to the value its returned expression has in `env` (`hbind`).  Then every ORIGINAL
+equation holds in `env'`: whenever both sides evaluate to exact numbers, these are equal.
+
+Side conditions as in `coeffs_sound`: the equation sides and the parameters are `simple` trees,
+and the reciprocals the collector builds evaluate exactly (`recipOK`; vacuous for equations
+without `Quotient`). -/
+theorem solve_affine_sound_partial (env env' : Env) (names : List String)
+    (eqs : List (Expr × Expr)) (params : List Expr) (sol : List (Expr × Expr)) (qs : List Rat)
+    (h : solveAffine names eqs params = .ok sol)
+    (hq : nvL env params = some qs) (hq' : nvL env' params = some qs)
+    (hps : ∀ u ∈ params, u.simple = true)
+    (hbind : ∀ kv ∈ sol, ∃ x, nv env kv.2 = some x ∧ nv env' kv.1 = some x)
+    (hred : ∀ mat, eqs.mapM (assembleRow (names.map Expr.var) params) = .ok mat →
+      reducedOK (gaussElim eqs.length (names.map Expr.var).length mat) = true) :
+    ∀ eq ∈ eqs, eq.1.simple = true → eq.2.simple = true →
+      recipOK env' none eq.1 = true → recipOK env' none eq.2 = true →
+      ∀ ql qr, nv env' eq.1 = some ql → nv env' eq.2 = some qr → ql = qr := by
+  obtain ⟨mat, vals, xs, hm, hsol, hvl, hf2, hrows⟩ :=
+    solve_affine_rows_sound_partial env names eqs params sol qs h hq
+  have hall := hrows (hred mat hm)
+  intro eq heq hs1 hs2 hr1 hr2 ql qr hl hr
+  obtain ⟨r, hrm, hre⟩ := mapM_of_mem eqs mat hm eq heq
+  have hx : ∀ j u, (names.map Expr.var)[j]? = some u →
+      nv env' u = some ((fun j => xs.getD j 0) j) := by
+    intro j u hu
+    have hj : j < vals.length := by
+      rw [hvl]; exact (List.getElem?_eq_some_iff.1 hu).1
+    have hv : vals[j]? = some vals[j] := List.getElem?_eq_getElem hj
+    have hmem : (u, vals[j]) ∈ sol := by
+      rw [hsol, List.mem_iff_getElem?]
+      exact ⟨j, by rw [List.getElem?_zip_eq_some]; exact ⟨hu, hv⟩⟩
+    obtain ⟨x0, h1, h2⟩ := hbind _ hmem
+    obtain ⟨b, hb, hvb⟩ := forall2_get hf2 j _ hv
+    rw [h1] at hvb
+    simp only [Option.some.injEq] at hvb
+    subst hvb
+    simp only [List.getD_eq_getElem?_getD, hb, Option.getD_some]
+    exact h2
+  have hp : ∀ c u, params[c]? = some u → nv env' u = some (pOf qs c) := by
+    intro c u hu
+    obtain ⟨q, h1, h2⟩ := nvL_get params qs c u hq' hu
+    simp only [pOf, h1, Option.getD_some]
+    exact h2
+  have hp1 : pOf qs params.length = 1 := by
+    have := nvL_length params qs hq
+    simp [pOf, ← this]
+  have hus : ∀ u ∈ names.map Expr.var, u.simple = true := by
+    intro u hu
+    obtain ⟨n, _, rfl⟩ := List.mem_map.1 hu
+    rfl
+  have hval := assembleRow_value (env := env') (fun j => xs.getD j 0) (pOf qs) hx hp hp1 hus hps hre
+    hs1 hs2 hr1 hr2 hl hr
+  have h0 := hall r hrm
+  unfold res at hval
   linarith
 
 /-- non-vacuity: `x + y = 2p + 1`, `x - y = 1` with the parameter `p`: accepted, single-entry
@@ -365,22 +456,24 @@ example : (match solveAffine ["x", "y"] demoEqs [.var "p"] with
 example : (match demoEqs.mapM (assembleRow [.var "x", .var "y"] [.var "p"]) with
     | .ok mat => reducedOK (gaussElim 2 2 mat) | _ => false) = true := by decide +kernel
 
-/-- The matrix row assembled for the equation `x + 1 = 0` is `(1 | 0)`, i.e. `x = 0`: the constant
-`1` of the left-hand side is overwritten by the constant `0` of the right-hand side
-(`rhs_mat[i, -1] = …` assigns instead of accumulating).  The solver returns `x = 0`, and at
-`x = 0` the left-hand side is `1`, not `0` (confirmed on the real code: known finding
-`solver-overwrites-two-sided-term`). -/
-theorem assemble_overwrites_cex :
-    assembleRow [.var "x"] [] (.nary .sum [.var "x", .const (.int 1)], .const (.int 0))
-      = .ok ([1], [0]) ∧
-    solveMat 1 1 [([1], [0])] = .ok [[0]] ∧
-    den [("x", .int 0)] (.nary .sum [.var "x", .const (.int 1)]) = .ok (.int 1) ∧
-    den [("x", .int 0)] (.const (.int 0)) = .ok (.int 0) :=
-  ⟨rfl, by decide +kernel, rfl, rfl⟩
+/-- the hypotheses of `solve_affine_sound_partial` at `p = 2`: `env'` binds `x ↦ 3 = value of 1 + p`,
+`y ↦ 2 = value of p`; both sides of both equations are `5 = 5` and `1 = 1` -/
+def demoEnvP : Env := [("p", .int 2)]
+def demoEnvXY : Env := [("p", .int 2), ("x", .int 3), ("y", .int 2)]
+example : nvL demoEnvP [.var "p"] = some [2] := by decide +kernel
+example : nvL demoEnvXY [.var "p"] = some [2] := by decide +kernel
+example : nv demoEnvP (.nary .sum [.const (.int 1), .var "p"]) = nv demoEnvXY (.var "x") := by
+  decide +kernel
+example : nv demoEnvP (.var "p") = nv demoEnvXY (.var "y") := by decide +kernel
+example : demoEqs.all (fun eq => eq.1.simple && eq.2.simple && recipOK demoEnvXY none eq.1 &&
+    recipOK demoEnvXY none eq.2) = true := by decide +kernel
+example : demoEqs.map (fun eq => (nv demoEnvXY eq.1, nv demoEnvXY eq.2)) =
+    [(some 5, some 5), (some 1, some 1)] := by decide +kernel
 
-/-- the whole solver on the three known-bad inputs, as the model computes them -/
+/-- the whole solver as the model computes it: `x + 1 = 0` gives `x = -1` (the repaired two-sided
+accumulation), and the two remaining known-bad inputs -/
 example : (match solveAffine ["x"] [(.nary .sum [.var "x", .const (.int 1)], .const (.int 0))] [] with
-    | .ok [(k, v)] => k == .var "x" && v == .const (.int 0) | _ => false) = true := by
+    | .ok [(k, v)] => k == .var "x" && v == .const (.int (-1)) | _ => false) = true := by
   decide +kernel
 example : (match solveAffine ["x", "y"] [(.nary .sum [.var "x", .var "y"], .const (.int 5))] [] with
     | .ok [(_, v1), (_, v2)] => v1 == .const (.int 5) && v2 == .const (.int 5) | _ => false) = true := by
